@@ -103,6 +103,7 @@ class Built:
         from dyce.evaluation import PWithSelection, expandable
 
         self.case = case
+        self.via = case.get("via", "expandable")
         self.objs, self.presented, self.totals, self.owner = [], [], [], {}
         self.raw = {}
         for i, s in enumerate(case["sources"]):
@@ -263,6 +264,9 @@ class Built:
             e = make_exc(act[1])
             self.raised.append(e)
             raise e
+        if k == "rec1" and self.via in ("hforeach", "pforeach"):
+            # the deprecated class methods nest as plain function calls: the dependent term evaluates another one
+            return self.call_top(act[1], act[2], None, self.via) + act[4]
         if k == "rec1":
             return self.call(act[1], act[2], act[3]) + act[4]
         if k == "rec2":
